@@ -534,7 +534,11 @@ def _apply_group_method_single_chunk(
 
 @nb.njit(parallel=True, cache=True)
 def reduce_array_pair(
-    x: np.ndarray, y: np.ndarray, reducer: Callable, counts: Optional[np.ndarray] = None
+    x: np.ndarray,
+    y: np.ndarray,
+    reducer: Callable,
+    counts: Optional[np.ndarray] = None,
+    y_counts: Optional[np.ndarray] = None,
 ):
     """
     Apply a reduction function element-wise to pairs of arrays using parallel processing.
@@ -580,6 +584,9 @@ def reduce_array_pair(
     """
     out = x.copy()
     for i in nb.prange(len(x)):
+        if y_counts is not None and y_counts[i] == 0:
+            # y holds no observations for this group, so x is already the answer
+            continue
         if counts is None:
             count = 1
         else:
@@ -724,10 +731,21 @@ def combine_chunk_results_for_factorized_key(
     else:
         combined_count = counts[0]
 
+    counts_are_tracked = not np.isscalar(combined_count)
     for chunk, count in zip(chunks[1:], counts[1:]):
-        combined = reduce_array_pair(
-            combined, chunk, getattr(ScalarFuncs, reduce_func_name)
-        )
+        if counts_are_tracked:
+            # use the counts to recognise partial results which are empty for a group
+            combined = reduce_array_pair(
+                combined,
+                chunk,
+                getattr(ScalarFuncs, reduce_func_name),
+                counts=np.asarray(combined_count),
+                y_counts=np.asarray(count),
+            )
+        else:
+            combined = reduce_array_pair(
+                combined, chunk, getattr(ScalarFuncs, reduce_func_name)
+            )
         combined_count = combined_count + count
 
     return combined, combined_count
